@@ -896,14 +896,14 @@ def run_path(scenario, prefix, profile=False):
         res.status = "harness-error"
         res.error = "RecursionError " + str(e)
     except Exception as e:  # noqa: BLE001
-        # an exception escaping the scenario: a candidate finding, to be confirmed by replay
-        try:
-            m = ctx.ensure_model()
-            ctx._violation("unexpected-exception:" + type(e).__name__, m,
-                           "".join(traceback.format_exception(e))[-1500:])
-        except Abort as a:
+        if not _passes_through_code_under_test(e):
+            # raised and propagated entirely inside /verif (harness, engine, fakes): a mistake of the machinery, or a
+            # harness reaching into an internal that no longer exists - never a statement about the property
             res.status = "harness-error"
-            res.error = f"exception {e!r} on a path whose condition could not be solved: {a}"
+            res.error = ("exception inside the verification machinery (no frame of the code under test): "
+                         + "".join(traceback.format_exception(e))[-1200:])
+        else:
+            _candidate_exception(ctx, res, e)
     finally:
         if profile:
             sys.setprofile(None)
@@ -925,6 +925,41 @@ def run_path(scenario, prefix, profile=False):
     return d
 
 
+def _candidate_exception(ctx, res, e):
+    # an exception escaping the scenario: a candidate finding, to be confirmed by replay
+    try:
+        m = ctx.ensure_model()
+        ctx._violation("unexpected-exception:" + type(e).__name__, m,
+                       "".join(traceback.format_exception(e))[-1500:])
+    except Abort as a:
+        res.status = "harness-error"
+        res.error = f"exception {e!r} on a path whose condition could not be solved: {a}"
+
+
+def _passes_through_code_under_test(e) -> bool:
+    """True if any traceback frame of the exception (or of its causes) lies in the tree under test."""
+    import os
+    if type(e).__name__ in ("Livelock", "Deadlock"):
+        return True          # raised by the virtual loop about the run as a whole: the code under test spins or is stuck
+    root = os.path.realpath(os.environ.get("VERIF_REPO", "/repo")) + os.sep
+    seen = set()
+    stack = [e]
+    while stack:
+        x = stack.pop()
+        if x is None or id(x) in seen:
+            continue
+        seen.add(id(x))
+        tb = x.__traceback__
+        while tb is not None:
+            if os.path.realpath(tb.tb_frame.f_code.co_filename).startswith(root):
+                return True
+            tb = tb.tb_next
+        stack.extend([x.__cause__, x.__context__])
+        if isinstance(x, BaseExceptionGroup):
+            stack.extend(x.exceptions)
+    return False
+
+
 def run_concrete(scenario, values):
     """Replay a model against the real code with plain Python values."""
     Ctx.cur = None
@@ -936,7 +971,8 @@ def run_concrete(scenario, values):
         return {"failed": S.failed, "aborted": str(a), "exception": None, "notes": S.notes, "used": S.used}
     except Exception as e:  # noqa: BLE001
         exc = "".join(traceback.format_exception(e))[-3000:]
-        S.failed.append({"label": "unexpected-exception:" + type(e).__name__, "info": exc})
+        kind = "unexpected-exception:" if _passes_through_code_under_test(e) else "harness-exception:"
+        S.failed.append({"label": kind + type(e).__name__, "info": exc})
     return {"failed": S.failed, "aborted": None, "exception": exc, "notes": S.notes, "used": S.used,
             "covers": sorted(S.covers)}
 
